@@ -27,6 +27,18 @@ def typed(st, t, k):
     if h == "vtuple":
         # immutable variable-length tuple: the value seq_of(len, elems)
         return [t == seq_of(seq_len(t), seq_els(t)), seq_len(t) >= 0, normalized(seq_len(t), seq_els(t))]
+    if h in ("list", "set", "dict") and "g" in k[1:]:
+        # ghost containers live at negative references: they can never alias a real object
+        if getattr(st, "galloc", None) is None and hasattr(st, "pc"):
+            st.galloc = fresh("galloc", IntS)
+            st.assume(st.galloc >= 0, glob=True)
+        fs = [is_VRef(t), ref(t) < 0]
+        if getattr(st, "galloc", None) is not None:
+            fs.append(ref(t) >= -st.galloc)        # already allocated: later ghost allocations are distinct
+        if h == "list":
+            fs += [z3.Select(st.H("llen"), ref(t)) >= 0,
+                   normalized(z3.Select(st.H("llen"), ref(t)), z3.Select(st.H("lel"), ref(t)))]
+        return fs
     if h == "list":
         return [is_VRef(t), ref(t) >= 0, ref(t) < st.alloc, z3.Select(st.H("llen"), ref(t)) >= 0,
                 normalized(z3.Select(st.H("llen"), ref(t)), z3.Select(st.H("lel"), ref(t)))]
@@ -207,6 +219,13 @@ def seq_el_of(st, sv_t, kind_head):
 
 
 def alloc_ref(st, clsid=0):
+    if getattr(st, "ghost_mode", 0):
+        # ghost allocation: a separate, negative address space
+        if getattr(st, "galloc", None) is None:
+            st.galloc = fresh("galloc", IntS)
+            st.assume(st.galloc >= 0, glob=True)
+        st.galloc = z3.simplify(st.galloc + 1)
+        return z3.simplify(-st.galloc)
     r = st.alloc
     st.alloc = z3.simplify(st.alloc + 1)
     if clsid:
